@@ -1,6 +1,9 @@
 package schema
 
-import "regexp"
+import (
+	"fmt"
+	"regexp"
+)
 
 var unitsProperty = NewPropertySchema(
 	NewRefSchema("Units", nil),
@@ -1312,13 +1315,38 @@ func DescribeSchema() *ScopeSchema {
 	return schemaSchema
 }
 
-// UnserializeScope unserializes a scope definition from raw data.
+// UnserializeScope unserializes a scope definition from raw data. The references of the returned scope to
+// objects of its own namespace are linked; references to other namespaces remain for the caller to apply.
 func UnserializeScope(data any) (*ScopeSchema, error) {
 	s, err := scopeScopeSchema.Unserialize(data)
 	if err != nil {
 		return nil, err
 	}
-	return s.(*ScopeSchema), nil
+	result := s.(*ScopeSchema)
+	// The data describes references by ID only. Without linking them, the first use of the scope panics.
+	if err := recoverToError(func() {
+		result.RootObject()
+		result.ApplySelf()
+	}); err != nil {
+		return nil, fmt.Errorf("invalid scope (%w)", err)
+	}
+	return result, nil
+}
+
+// recoverToError runs f and returns the value it panicked with as an error. Linking a schema reports problems
+// such as dangling references by panicking, which is appropriate for schemas written in code but not for
+// schemas received as data.
+func recoverToError(f func()) (err error) {
+	defer func() {
+		if r := recover(); r != nil {
+			var ok bool
+			if err, ok = r.(error); !ok {
+				err = fmt.Errorf("%v", r)
+			}
+		}
+	}()
+	f()
+	return nil
 }
 
 // UnserializeSchema unserializes an entire schema definition from raw data.
